@@ -124,3 +124,27 @@ def pick(x, n):
         if x == i:
             return i
     raise ValueError("pick: value outside range(%d)" % n)
+
+
+def untraced():
+    """Context manager: run the enclosed (concrete) code outside CrossHair's tracer, at native speed."""
+    try:
+        from crosshair.tracers import NoTracing
+        return NoTracing()
+    except ImportError:
+        import contextlib
+        return contextlib.nullcontext()
+
+
+def picks(args, menus):
+    """Concrete values for symbolic menu indices: menus[i] is a list (value = menu[index]), an int n (value in
+    range(n)) or "bool".  One CrossHair path per combination (see pick)."""
+    out = []
+    for a, m in zip(args, menus):
+        if m == "bool":
+            out.append(True if a else False)
+        elif isinstance(m, int):
+            out.append(pick(a, m))
+        else:
+            out.append(m[pick(a, len(m))])
+    return out
